@@ -47,6 +47,8 @@ Etot(F, E, nd, dd, tail) == Q(dd * EtotNum(F, E, nd, tail), 80)
 Hs(F, E, nd, dd, tail) == Mul(Q(4, 1), Sqrt(Etot(F, E, nd, dd, tail)))
 Hrms(F, E, nd, dd, tail) == Sqrt(Mul(Q(8, 1), Etot(F, E, nd, dd, tail)))
 Hmax(F, E, nd, dd) == Mul(Q(186, 100), Hs(F, E, nd, dd, TRUE))      \* no time axis: k = 1.86
+\* a time axis needs a time STEP: NREC records; with one record (a length-1 time dimension, a scalar time coordinate) there is none
+HmaxSeries(F, E, nd, dd, nrec, hmaxt) == IF nrec <= 1 THEN Hmax(F, E, nd, dd) ELSE hmaxt
 \* with a time axis: k = sqrt(ln(N)/2), N = round(dt / Tm02) waves per record, dt = MEAN time step in seconds (Holthuijsen)
 Ln(a) == <<"ln", a>>
 Round(a) == <<"round", a>>
